@@ -468,6 +468,14 @@ def analyse(repo):
     return out, sorted(used_sources)
 
 
+def str_key(s):
+    """must equal OpmVerif.Serial.Coverage.strKey"""
+    h = 7
+    for ch in s:
+        h = (h * 131 + ord(ch)) % 1000000007
+    return h
+
+
 def lean_str(s):
     return '"' + s.replace("\\", "\\\\").replace('"', '\\"') + '"'
 
@@ -479,20 +487,27 @@ def render(classes):
          "   members named in operator==. -/",
          "namespace OpmVerif.Gen.SerialClasses", "",
          "structure Member where", "  name : String", "  kind : String", "  type : String", "  deriving Repr, DecidableEq", "",
-         "structure ClassInfo where", "  name : String", "  file : String", "  bases : List String", "  members : List Member",
-         "  serialized : List String", "  compared : List String", "  hasEq : Bool", "  deriving Repr", ""]
+         "/-- `serializedIdx` / `comparedIdx`: positions in `members` (kernel evaluation on numbers is fast,",
+         "on strings it is not); `serialized` / `compared` keep the names in source order for display.",
+         "`key`: `Coverage.strKey name` (polynomial hash), so that classes are looked up by number. -/",
+         "structure ClassInfo where", "  name : String", "  key : Nat", "  file : String", "  bases : List String", "  members : List Member",
+         "  serialized : List String", "  compared : List String", "  serializedIdx : List Nat", "  comparedIdx : List Nat",
+         "  hasEq : Bool", "  deriving Repr", ""]
     idents = []
     for k, c in enumerate(classes):
         ident = "c_" + re.sub(r"\W", "_", c["name"])
         idents.append(ident)
         L.append(f"def {ident} : ClassInfo :=")
-        L.append(f"  {{ name := {lean_str(c['name'])}, file := {lean_str(c['file'])},")
+        L.append(f"  {{ name := {lean_str(c['name'])}, key := {str_key(c['name'])}, file := {lean_str(c['file'])},")
         L.append("    bases := [" + ", ".join(lean_str(b) for b in c["bases"]) + "],")
         L.append("    members := [")
         L.append(",\n".join(f"      ⟨{lean_str(m['name'])}, {lean_str(m['kind'])}, {lean_str(m['type'])}⟩" for m in c["members"]))
         L.append("    ],")
         L.append("    serialized := [" + ", ".join(lean_str(s) for s in c["serialized"]) + "],")
         L.append("    compared := [" + ", ".join(lean_str(s) for s in c["compared"]) + "],")
+        names = [m["name"] for m in c["members"]]
+        L.append("    serializedIdx := [" + ", ".join(str(names.index(s)) for s in c["serialized"]) + "],")
+        L.append("    comparedIdx := [" + ", ".join(str(names.index(s)) for s in c["compared"]) + "],")
         L.append(f"    hasEq := {'true' if c['has_eq'] else 'false'} }}")
         L.append("")
     L.append("def classes : List ClassInfo := [" + ", ".join(idents) + "]")
